@@ -12,7 +12,7 @@
    The property is bounded ("exhaustive over that bounded grammar"): the *_bounded theorems are a
    COMPLETE enumeration inside Coq (vm_compute of a forallb, lifted by forallb_forall) of
    Model/EventsUniverse.v: 783 paths (3 channel paths x 9 subdirectory variants x 29 file
-   variants) x 5 move destinations x 36 flag combinations x 49 windows (times at and 1 ms around
+   variants) x 5 move destinations x 36 flag combinations x 81 windows (times at and 1 ms around
    the file times).  The other theorems hold for ALL paths / names; those about the full-path
    patterns assume `no_ts_ancestor d`: the directory d of the file has no timestamped directory
    strictly above its last component ("files at the format's depth"; decidable:
